@@ -7,7 +7,7 @@ import optlib
 
 
 def run(ctx):
-    optlib.run_property(ctx, "C10", 1500, 6000)
+    optlib.run_property(ctx, "C10", 1500, 20000)
 
 
 def replay(ctx, data):
